@@ -635,7 +635,7 @@ func c50History(s *c50Script, led *c50Ledger) string {
 	return b.String()
 }
 
-var c50Printed atomic.Bool
+var c50Printed, c50Hung atomic.Bool
 
 func c50Reps() int {
 	if vs.Thorough() {
@@ -658,6 +658,7 @@ func c50Property(t *testing.T, st *vs.S) func(rt *rapid.T) {
 				// reported as inconclusive, outside rapid (no shrinking of a hang).
 				fmt.Fprintf(os.Stderr, "VERIF-INCONCLUSIVE C50: %s within %v (rep %d)\nscript: %s\n", hang, c50HangBound, rep, desc)
 				runtime.GOMAXPROCS(old)
+				c50Hung.Store(true)
 				t.Fatalf("VERIF-INCONCLUSIVE C50: %s within %v; script: %s", hang, c50HangBound, desc)
 			}
 			v := c50Judge(s, led)
@@ -728,6 +729,9 @@ func TestVerifC50Ledger(t *testing.T) {
 // TestVerifC50TypePanic: Send/Subscribe with a type other than the feed's panic with
 // the documented error and leave the feed usable.
 func TestVerifC50TypePanic(t *testing.T) {
+	if c50Hung.Load() {
+		t.Skip("VERIF-INCONCLUSIVE: an earlier test left blocked feed goroutines behind")
+	}
 	st := vs.New("C50", t)
 	catch := func(fn func()) (p any) {
 		defer func() { p = recover() }()
